@@ -42,6 +42,19 @@ pub fn id_program_ordered(n: usize, limits: &[u64], limit_first: bool) -> String
             s.push_str(&format!("  m{j}-{lim}: math.random({lim}{unit});\n"));
         }
     }
+    // limits that are whole numbers only within the tolerance Sass grants: they mean the whole number.
+    // With `limit_first` they get the first draws of the compilation (where the injected draws land).
+    if limits.first().is_some_and(|l| l % 3 == 0) {
+        let mut z = String::new();
+        for (j, n) in [1u64, 2, 7, 100].iter().enumerate() {
+            z.push_str(&format!("  z{j}-{n}: math.random({n}.0000001);\n"));
+        }
+        if limit_first {
+            s = s.replacen("r {\n", &format!("r {{\n{z}"), 1);
+        } else {
+            s.push_str(&z);
+        }
+    }
     s.push_str("}\n");
     s
 }
@@ -138,7 +151,7 @@ pub fn check_output(
                 ));
             }
         } else if let Some((_, lim)) = name.split_once('-').filter(|(a, _)| {
-            (a.starts_with('l') || a.starts_with('g') || a.starts_with('m')) && a.len() > 1 && a[1..].chars().all(|c| c.is_ascii_digit())
+            (a.starts_with('l') || a.starts_with('g') || a.starts_with('m') || a.starts_with('z')) && a.len() > 1 && a[1..].chars().all(|c| c.is_ascii_digit())
         }) {
             stats.inc("random_limit_checked");
             let limit: u64 = lim.parse().unwrap_or(0);
